@@ -77,14 +77,22 @@ Theorem C06_second_commit : forall c c1 c2,
 Proof. exact second_commit_changes_nothing. Qed.
 Print Assumptions C06_second_commit.
 
-(** A Commit during which the remote failed is reported and keeps buffer and tombstones, so the
-    next successful Commit reaches the same tree (C06_commit applies to the kept state).
-    PARTIAL: the intermediate state of the remote after a failed Commit (some tombstones
-    applied, part of the buffer sent) is not modelled; that a later Commit converges from it is
-    checked on the implementation for every fault position (harness), not proved. *)
-Theorem C06_commit_fault_partial : forall c, cache_step c CCommitFault = (c, RErr).
+(** A Commit during which the remote failed is reported ([CCommitFault] answers with an error and
+    keeps buffer and tombstones).  Whatever intermediate state the remote was left in — only some
+    of the tombstones applied, or all of them and ANY subset of the buffer entries materialised
+    in any order — a later Commit without failure brings the remote to exactly the tree of an
+    undisturbed Commit (the view). *)
+Theorem C06_commit_fault_reported : forall c, cache_step c CCommitFault = (c, RErr).
 Proof. reflexivity. Qed.
-Print Assumptions C06_commit_fault_partial.
+Print Assumptions C06_commit_fault_reported.
+
+Theorem C06_commit_converges_after_failure : forall c rp,
+  Inv c -> partial_remote c rp ->
+  exists c', c_commit (mkCache (cB c) rp (cT c)) = (c', RUnit) /\
+             cB c' = cB c /\ cT c' = [] /\
+             forall q, lookup (cR c') q = vlookup c q.
+Proof. exact commit_converges_after_failure. Qed.
+Print Assumptions C06_commit_converges_after_failure.
 
 (** Non-vacuity: a concrete history. *)
 Example C06_ex :
